@@ -616,6 +616,8 @@ def worker(job, r):
     if mode == 'conf':
         for i in range(12):
             extender_status_isolation(sess, rng, r, 'x%d-%d' % (seed, i))
+        for i in range(6):
+            combined_request_conf_unanswered(sess, rng, r, 'u%d-%d' % (seed, i))
         for nconf in (1, 2, 3, 5):
             for split in (False, True):
                 for order in (0, 1, 2):
@@ -885,6 +887,54 @@ class HttpMonitor(Monitor):
         for _ in range(3):
             s.cmd('async_run 0')
         s.cmd('async_free 0')
+
+
+def combined_request_conf_unanswered(sess, rng, r, label):
+    """one request object carries a hash and asks for the configuration; the server answers the hash and never sends a configuration. The
+    service counts two pending parts; the part that is never answered has to end too (receive timeout), so that the pending count comes
+    back to zero and an application that loops on the waiting count terminates."""
+    c = sess.cmd
+    key = b'anon'
+    c('clock 1700000000')
+    c('async_new 0 0 sign')
+    c('async_endpoint 0 set ksi+tcp://agg.example:3332 anon anon')
+    c('async_opt 0 cache_size 4')
+    c('async_opt 0 max_request_count 1000')
+    rcv = rng.choice([3, 5, 10])
+    c('async_opt 0 rcv_timeout %d' % rcv)
+    c('net_ep agg.example 3332 connect=0 send=- recv=-')
+    n0 = len(sess.tcp_order)
+    h = R.H(1, b'combined/' + label.encode())
+    q = c('async_add 0 0 signwconf %s 0 S' % h.hex())
+    if q.rc != 0:
+        r.viol('async-tcp:combined-request:add-refused', 'rc=%#x' % q.rc, label)
+        c('async_free 0')
+        return
+    rid = int(q['reqid'])
+    c('clock +1')
+    c('async_run 0')
+    conns = [i for i in sess.tcp_order[n0:] if i['open']]
+    if not conns:
+        c('async_free 0')
+        return
+    sg = gen.gen_signature(random.Random(label), first_corr=0, with_cal=False, rfc=False, doc_imprint=h, time=1500000000, nchains=1)
+    c('net_push %d %s' % (conns[-1]['fd'], S.aggr_response(dict(req_id=rid), sg, key).hex()))
+    got = []
+    last = None
+    for k in range(2 * rcv + 8):
+        c('clock +1')
+        q = c('async_run 0')
+        if q.get('handle') == '1':
+            got.append((q.get('state'), q.get('tag'), q.get('herr')))
+        last = c('async_counts 0')
+    r.count('combined_request_conf_unanswered_scenarios')
+    r.observe(('combined-unanswered', rcv, tuple(got)))
+    if ('3', 'S', '0') not in got:
+        r.viol('async-tcp:combined-request:hash-part-not-completed', 'the reply for the hash was delivered; handles returned: %s' % got, label)
+    elif (int(last['pending']), int(last['received'])) != (0, 0) or int(q['waiting']) != 0:
+        r.viol('async-tcp:combined-request:pending-never-reaches-zero', 'the configuration part was never answered; %d s after the receive timeout of %d s the service still reports pending=%s received=%s waiting=%s (handles returned: %s)' % (
+            rcv + 8, rcv, last['pending'], last['received'], q['waiting'], got), label)
+    c('async_free 0')
 
 
 def extender_status_isolation(sess, rng, r, label):
